@@ -532,6 +532,22 @@ fn gen_lines(rng: &mut Rng, n: u64, lines: &mut Vec<String>) {
 			}
 		}
 	}
+	// duplicated known members inside an otherwise complete response: every pair of values of the
+	// duplicated member (so also `null` first, then a real value), pair first / split / last
+	for dn in 0..4usize {
+		for v1 in vals[dn] {
+			for v2 in vals[dn] {
+				let rest: Vec<String> = [(0usize, "\"2.0\""), (1, "1"), (2, "1")].iter().filter(|(i, _)| *i != dn).map(|(i, v)| format!("\"{}\":{v}", names[*i])).collect();
+				let a = format!("\"{}\":{v1}", names[dn]);
+				let b = format!("\"{}\":{v2}", names[dn]);
+				let r = rest.join(",");
+				let sep = if r.is_empty() { "" } else { "," };
+				for t in [format!("{{{a},{b}{sep}{r}}}"), format!("{{{a}{sep}{r},{b}}}"), format!("{{{r}{sep}{a},{b}}}")] {
+					lines.push(format!("resp_dec {}", hexs(&t)));
+				}
+			}
+		}
+	}
 	for _ in 0..n {
 		match rng.below(16) {
 			0 => lines.push(format!("code {}", rng.next() as i32)),
